@@ -128,9 +128,21 @@ def check(ctx, only_h1: bool = False, h1_rule: str = "C13-H1") -> None:
             cur = par
         if kind is None and isinstance(stmt, ast.Assign) and any(isinstance(t, ast.Subscript) and issue in texts(ctx.ev.eval(t.slice, st.env)) for t in stmt.targets):
             kind = "issue-text"
-        if kind == "comparison" and not isinstance(stmt, (ast.If, ast.Assert, ast.While)):
-            # a comparison whose result is stored somewhere is a flow
-            kind = None if not isinstance(stmt, ast.If) else kind
+        # a comparison yields a decision (boolean / boolean array); it may be stored and counted.
+        # What must not happen is that the threshold takes part in computing the confidence itself:
+        # the statement must not define a value the stored confidence is derived from.
+        if kind == "comparison" and isinstance(stmt, ast.Assign):
+            feeds = set(conf_names)
+            for _ in range(3):
+                for nm in list(feeds):
+                    zp = zip_partner(f, nm)
+                    if zp and isinstance(zp[2][zp[1]], ast.Name):
+                        feeds.add(zp[2][zp[1]].id)
+                    for _st, v, _i in assignments_to(f, nm):
+                        feeds |= names_in(v)
+            tnames = {x.id for t in stmt.targets for x in ast.walk(t) if isinstance(x, ast.Name)}
+            if tnames & feeds:
+                kind = None
         ctx.instance("C13-H2", "use of threshold at %s: %s" % (f.loc(u), kind or "other"), f.loc(u), ok=kind is not None)
         if kind is None:
             ctx.finding("C13-H2", cname + ":threshold-flow", f.loc(u), "the threshold flows into %s (it may influence the confidence or the model input)" % unparse(stmt)[:70])
